@@ -143,7 +143,7 @@ def run(F, R, ctx):
     for nm in ("run_explicit_merge", "finish_thread_merge"):
         fn = F.one(r"^steel_rc::\{impl QueueHandle\}::%s$" % nm)
         R.inst("C05.a", "QueueHandle::%s keys the queue by the current thread" % nm,
-               bool(fn.call_blocks(r"\{impl ThreadId\}::current_thread$")),
+               bool(fn.call_blocks(r"\{impl ThreadId\}::current_thread$", wrappers=True)),
                "QueueHandle::%s no longer derives the queue key from ThreadId::current_thread(): it would merge another "
                "thread's objects and touch their owner-only counters" % nm, fn.loc(), sample=True)
     # thread_id writes
@@ -269,7 +269,7 @@ def run(F, R, ctx):
                "while its own count is not accounted for" % fn.short(), fn.loc(), sample=True)
     fd = F.one(r"^steel_rc::\{impl RcBox<T>\}::fast_decrement$")
     R.inst("C05.f", "fast_decrement sets merged when the owner count reaches zero",
-           bool(calls_with(fd, r"\{impl Packed\}::set_merged$", "const:1")) and bool(fd.call_blocks(r"\{impl SharedPacked\}::compare_exchange$")),
+           bool(calls_with(fd, r"\{impl Packed\}::set_merged$", "const:1")) and bool(fd.call_blocks(r"\{impl SharedPacked\}::compare_exchange$", wrappers=True)),
            "RcBox::fast_decrement no longer publishes the merged flag when the owner drops its last reference: the remaining "
            "non-owner references can never trigger deallocation", fd.loc(), sample=True)
     sd = F.one(r"^steel_rc::\{impl RcBox<T>\}::slow_decrement$")
@@ -282,7 +282,7 @@ def run(F, R, ctx):
         okq = all(any(g in dom[x] for g in gc_) for x in q)
     aggs = sorted(set(e[2] for _, _, e in sd.events("agg") if e[1] == "DecrementAction"))
     R.inst("C05.f", "slow_decrement queues on a negative shared count and can report Queue/Deallocate/DoNothing",
-           okq and {"Queue", "Deallocate", "DoNothing"} <= set(aggs) and bool(sd.call_blocks(r"\{impl Packed\}::get_merged$")),
+           okq and {"Queue", "Deallocate", "DoNothing"} <= set(aggs) and bool(sd.call_blocks(r"\{impl Packed\}::get_merged$", wrappers=True)),
            "RcBox::slow_decrement no longer sets the queued flag under a test of the shared count, or cannot report one of "
            "Queue / Deallocate / DoNothing (reports: %s)" % aggs, sd.loc(), sample=True)
 
@@ -325,18 +325,18 @@ def run(F, R, ctx):
            "RcBox::has_unique_ref: %s — it can report uniqueness on the owner thread while another thread still holds a "
            "reference counted in the shared word" % why, hu_.loc(), sample=True)
     R.inst("C05.d", "has_unique_ref / merged branch: compare_exchange(count 1 -> 0)",
-           bool(hu_.call_blocks(r"\{impl SharedPacked\}::compare_exchange$")) and
+           bool(hu_.call_blocks(r"\{impl SharedPacked\}::compare_exchange$", wrappers=True)) and
            any("const:1" in a for a in setc) and any("const:0" in a for a in setc),
            "RcBox::has_unique_ref's ownerless branch no longer claims the value with compare_exchange(expected count 1)",
            hu_.loc(), sample=True)
     tu = F.one(r"^steel_rc::\{impl BiasedRc<T>\}::try_unwrap$")
     R.inst("C05.d", "BiasedRc::try_unwrap consults the owner id and the owner counter",
-           bool(tu.call_blocks(r"\{impl ThreadId\}::current_thread$")) and bool(tu.call_blocks(r"try_unwrap_internal(_same_thread)?$")),
+           bool(tu.call_blocks(r"\{impl ThreadId\}::current_thread$", wrappers=True)) and bool(tu.call_blocks(r"try_unwrap_internal(_same_thread)?$", wrappers=True)),
            "BiasedRc::try_unwrap no longer distinguishes owner/non-owner before moving the payload out", tu.loc(), sample=True)
 
     # ---------------- e
     cl = F.one(r"^steel_rc::\{impl Clone for BiasedRc<T>\}::clone$")
-    R.inst("C05.e", "Clone for BiasedRc increments", bool(cl.call_blocks(r"\{impl RcBox<T>\}::increment$")),
+    R.inst("C05.e", "Clone for BiasedRc increments", bool(cl.call_blocks(r"\{impl RcBox<T>\}::increment$", wrappers=True)),
            "BiasedRc::clone creates a new handle without incrementing the count", cl.loc(), sample=True)
     dr = F.one(r"^steel_rc::\{impl Drop for BiasedRc<T>\}::drop$")
     decs = dr.call_blocks(r"\{impl RcBox<T>\}::decrement$")
